@@ -10,6 +10,7 @@
   re-synchronised from the implementation's dumps so that one divergence does not cascade.
 -/
 import Cachelito.System
+import Cachelito.Async
 import Cachelito.Driver
 
 namespace Cachelito.MacroDriver
@@ -22,6 +23,7 @@ structure Ctx where
   fws : List (Option Float) := []
   epFns : List Nat := []
   sys : MSys := ⟨[], [], 0⟩
+  pending : List (PendingCall String Val) := []
   lines : Nat := 0
   ok : Nat := 0
   diffs : Nat := 0
@@ -136,6 +138,55 @@ def keySetPred (ks : String) : String → Bool :=
   let l := splitList ks
   fun k => l.contains k
 
+/-- suspended / resumed / dropped async calls (`Cachelito.aStep`) -/
+def modelStepAsync (ctx : Ctx) (op : String) (implOut : String) (rs : List Nat) :
+    Option (MSys × List (PendingCall String Val) × String) :=
+  let a : ASys String Val := ⟨ctx.sys, ctx.pending⟩
+  let go (o : AOp String Val) := aStep ctx.fns (tlsOf ctx) Val.size isOkVal rs a o
+  match op.splitOn " " with
+  | ["begin", id, fi, _j, _n, _ok, _len, ci, io, _k] => do
+    let id ← id.toNat?
+    let fi ← fi.toNat?
+    let spec ← ctx.fns[fi]?
+    let would ← field implOut "would"
+    -- the key is reported as `ret=<key> …` (finished at once) or `susp=<key>` (suspended)
+    let key ← (field implOut "susp").orElse (fun _ => field implOut "ret")
+    match would.splitOn "," with
+    | [wv, wsz, _wok] => do
+      let wsz ← wsz.toNat?
+      let c : CallIn String Val :=
+        ⟨key, ⟨wv, if spec.useMem then wsz else 0⟩, fun _ _ => ci = "1", fun _ _ => io = "1"⟩
+      let (a', out) := go (.callBegin id fi c)
+      let st := let s := a'.sys.getCache ⟨fi, none⟩; s!"{s.hitStat},{s.missStat}"
+      match out with
+      | .ret v tr =>
+        let (pl, cl, runs) := renderTraceLog tr fi
+        pure (a'.sys, a'.pending, s!"ret={key} {v.id} exec={runs} pred=[{pl}] check=[{cl}] stats={st}")
+      | .suspended pre =>
+        let (_, cl, _) := renderTraceLog pre fi
+        pure (a'.sys, a'.pending, s!"susp={key} exec=1 check=[{cl}] stats={st} blocked=0")
+      | _ => none
+    | _ => none
+  | ["resume", id] => do
+    let id ← id.toNat?
+    if (ctx.pending.find? (fun p => p.id = id)).isNone then
+      return (ctx.sys, ctx.pending, "nosuchcall")
+    let p ← ctx.pending.find? (fun p => p.id = id)
+    let (a', out) := go (.callResume id)
+    match out with
+    | .ret v tr =>
+      -- body execution and staleness check were observed at `begin`; only the predicate runs now
+      let tr' := tr.drop p.pre.length
+      let (pl, _, _) := renderTraceLog tr' p.fn
+      let st := let s := a'.sys.getCache ⟨p.fn, none⟩; s!"{s.hitStat},{s.missStat}"
+      pure (a'.sys, a'.pending, s!"ret={p.c.key} {v.id} exec=0 pred=[{pl}] check=[] stats={st}")
+    | _ => none
+  | ["drop", id] => do
+    let id ← id.toNat?
+    let (a', _) := go (.callDrop id)
+    pure (a'.sys, a'.pending, "unit")
+  | _ => none
+
 /-- model output rendered like the harness renders the observation -/
 def modelStep (ctx : Ctx) (op : String) (implOut : String) (rs : List Nat) : Option (MSys × String) :=
   let go (o : SysOp String Val) : MSys × SysOut String Val :=
@@ -190,7 +241,12 @@ def modelStep (ctx : Ctx) (op : String) (implOut : String) (rs : List Nat) : Opt
 
 /-- the part of the implementation's output that the model predicts (drops `would=…`) -/
 def implComparable (op : String) (implOut : String) : String :=
-  if op.startsWith "call " then
+  if op.startsWith "begin " then
+    match implOut.splitOn " ret=", implOut.splitOn " susp=" with
+    | [_, rest], _ => "ret=" ++ rest
+    | _, [_, rest] => "susp=" ++ rest
+    | _, _ => implOut
+  else if op.startsWith "call " then
     match implOut.splitOn " ret=" with
     | [_, rest] => "ret=" ++ rest
     | _ => implOut
@@ -198,6 +254,20 @@ def implComparable (op : String) (implOut : String) : String :=
 
 def policyOfCall (ctx : Ctx) (op : String) : Bool :=
   match op.splitOn " " with
+  | "begin" :: _ :: fi :: _ =>
+    match fi.toNat? with
+    | some fi => match ctx.fns[fi]? with
+      | some spec => spec.cfg.policy = .random
+      | none => false
+    | none => false
+  | "resume" :: id :: _ =>
+    match id.toNat? with
+    | some id => match ctx.pending.find? (fun p => p.id = id) with
+      | some p => match ctx.fns[p.fn]? with
+        | some spec => spec.cfg.policy = .random
+        | none => false
+      | none => false
+    | none => false
   | "call" :: fi :: _ =>
     match fi.toNat? with
     | some fi => match ctx.fns[fi]? with
@@ -214,7 +284,7 @@ def handleLine (line : String) (ctx : Ctx) : Ctx × List String :=
     | none => ({ ctx with bad := ctx.bad + 1 }, [s!"BAD spec {line}"])
   | "E" :: fl :: _ =>
     let ids := (splitList fl).filterMap String.toNat?
-    ({ ctx with epFns := ids, sys := ⟨[], [], base⟩, episode := ctx.episode + 1, stepInEp := 0 }, [])
+    ({ ctx with epFns := ids, sys := ⟨[], [], base⟩, pending := [], episode := ctx.episode + 1, stepInEp := 0 }, [])
   | ["R", dumps, stats, called] =>
     -- start the episode from a state observed on the implementation (quiescent state after a scheduled run)
     let ctx := resync ctx dumps
@@ -240,7 +310,19 @@ def handleLine (line : String) (ctx : Ctx) : Ctx × List String :=
     match (line.drop 2).toString.splitOn "||" with
     | [op, implOut, implDumps] =>
       let want := implComparable op implOut
+      let isA := op.startsWith "begin " || op.startsWith "resume " || op.startsWith "drop "
+      -- pending calls after this step (only begin / resume / drop change them; independent of the draws)
+      let pend' := if isA then
+          match modelStepAsync ctx op implOut [] with
+          | some (_, p, _) => p
+          | none => ctx.pending
+        else ctx.pending
       let try1 (rs : List Nat) : Option (MSys × String × String) :=
+        if isA then
+          match modelStepAsync ctx op implOut rs with
+          | some (sys', _, out) => some (sys', out, renderAll { ctx with sys := sys' })
+          | none => none
+        else
         match modelStep ctx op implOut rs with
         | some (sys', out) => some (sys', out, renderAll { ctx with sys := sys' })
         | none => none
@@ -249,7 +331,7 @@ def handleLine (line : String) (ctx : Ctx) : Ctx × List String :=
       | some (sys0, out0, dumps0) =>
         let good (r : MSys × String × String) : Bool := r.2.1 == want && r.2.2 == implDumps
         if good (sys0, out0, dumps0) then
-          ({ ctx with sys := sys0, ok := ctx.ok + 1, tries := ctx.tries + 1 }, [])
+          ({ ctx with sys := sys0, pending := pend', ok := ctx.ok + 1, tries := ctx.tries + 1 }, [])
         else
           -- random policy: search the draws the implementation could have made
           let found : Option (MSys × String × String) :=
@@ -261,10 +343,10 @@ def handleLine (line : String) (ctx : Ctx) : Ctx × List String :=
                   | none => none))
             else none
           match found with
-          | some r => ({ ctx with sys := r.1, ok := ctx.ok + 1, tries := ctx.tries + 2 }, [])
+          | some r => ({ ctx with sys := r.1, pending := pend', ok := ctx.ok + 1, tries := ctx.tries + 2 }, [])
           | none =>
             let msg := s!"DIFF episode={ctx.episode} step={ctx.stepInEp} op=[{op}] implOut=[{want}] modelOut=[{out0}] implDumps=[{implDumps}] modelDumps=[{dumps0}]"
-            let ctx' := resync { ctx with sys := sys0 } implDumps
+            let ctx' := resync { ctx with sys := sys0, pending := pend' } implDumps
             ({ ctx' with diffs := ctx.diffs + 1, tries := ctx.tries + 1 }, [msg])
     | _ => ({ ctx with bad := ctx.bad + 1 }, [s!"BAD shape {line}"])
   | _ =>
